@@ -49,6 +49,21 @@ SKCase(j) ==
 SK == IF Family # "sk" THEN {} ELSE
   {SKCase(j) : j \in 1..NSample}
 
+\* ---- sksep: two or three keys over texts that trouble an implementation which JOINS the key texts of a record (a proper
+\* prefix followed by a byte below or above the joiner, the joiner and the escape character themselves), lexical and
+\* case-folded flags; every stream of <= MaxLen records for two keys, NSample sampled ones of 3..5 records
+USep == <<"Ann", "Ann Marie", "Ann-Marie", "Anna", "a,b", "a-b", "a\\b", ",", "+1", "a", "", "missing">>
+LexFlags == <<"f", "r", "c", "cr">>
+SepCase(j) ==
+  LET nk == 2 + (H(j, 33) % 2)
+      len == 3 + (H(j, 34) % 3) IN
+  SortCase(SubSeq(KeyNames, 1, nk), [k \in 1..nk |-> Pick(j, 34 + k, LexFlags)], H(j, 32) % 4 = 0,
+           [i \in 1..len |-> Rec(i, [k \in 1..nk |-> Pick(j, 3 * i + k, USep)])])
+SKSEP == IF Family # "sksep" THEN {} ELSE
+  {SortCase(<<"x", "y">>, <<f, g>>, FALSE, [i \in 1..Len(w) |-> Rec(i, w[i])]) :
+       f \in {"f", "r"}, g \in {"f", "c"}, w \in SeqsUpTo({<<a, b>> : a \in {"Ann", "Ann Marie", "Ann-Marie", "a,b", "a-b", "a\\b", ""}, b \in {"Ann", ",", "+1"}}, MaxLen)}
+  \cup {SepCase(j) : j \in 1..NSample}
+
 \* ---- big: 24 records whose first 19 keys are a permutation i -> a*i+b (mod 19) of the whole universe (19 distinct
 \* groups: beyond the 12 elements up to which Go sorts by insertion), the last 5 repeat earlier texts, one record
 \* lacks the key; every flag
@@ -122,7 +137,7 @@ MAPV == IF Family # "mapv" THEN {} ELSE
   UNION {MapVModes(MapOfVals(w)) : w \in SeqsUpTo(USet, MaxLen)}
         \cup UNION {MapVModes(MapOfVals([i \in 1..4 |-> Pick(j, i, U)])) : j \in 1..NSample}
 
-Cases == CASE Family = "s1" -> S1 [] Family = "s1s" -> S1S [] Family = "sk" -> SK [] Family = "big" -> BIG
+Cases == CASE Family = "s1" -> S1 [] Family = "s1s" -> S1S [] Family = "sk" -> SK [] Family = "sksep" -> SKSEP [] Family = "big" -> BIG
            [] Family = "swr" -> SWR [] Family = "top" -> TOP [] Family = "arr" -> ARR [] Family = "arrs" -> ARRS
            [] Family = "mapk" -> MAPK [] Family = "mapv" -> MAPV
 =============================================================================
